@@ -169,12 +169,19 @@ def periodic_cases(draw):
 
 
 _pq = st.integers(-2, 2)
+# form in which coordinates / positions / vectors are handed to the conversion methods: 'plain' = float ndarray or list
+# (field 'aslist'), read-only ndarray, non-contiguous view, nested tuple, numpy scalars for single values, integer-typed
+# (whole-number fractional and plotting coordinates, whole-number crystal vectors)
+_cform = st.sampled_from(['plain', 'plain', 'plain', 'ro', 'strided', 'tuple', 'npscalar', 'int'])
 
 
 @st.composite
 def coords_cases(draw):
     s = draw(surfaces())
     q = draw(queries())
+    form = draw(_cform)
+    if form == 'int':
+        q = [[float(round(a)), float(round(b))] for a, b in q]
     # an in-plane plotting x axis p*A1 + q*A2 (None = default), alternative in-plane shift vectors (integer combinations)
     xv = None
     if draw(_bool):
@@ -187,8 +194,14 @@ def coords_cases(draw):
         if M[0][0] * M[1][1] - M[0][1] * M[1][0] == 0:
             M = [[1, 1], [0, 1]]
         alt = M
+    # explicit plotting x axis used in the enumeration of all keyword combinations (always drawn)
+    xvc = [draw(_pq), draw(_pq)]
+    if xvc == [0, 0]:
+        xvc = [1, -1]
     return {'surf': s, 'q': q, 'scalar': draw(_bool), 'aslist': draw(_bool), 'xv': xv, 'alt': alt,
-            'smooth': draw(_bool), 'hist': draw(query_history())}
+            'smooth': draw(_bool), 'hist': draw(query_history()), 'form': form, 'xvc': xvc,
+            # whole-number alternative crystal vectors are handed over integer-typed ([1, 1, 0] as one types them)
+            'altint': draw(_bool)}
 
 
 @st.composite
@@ -247,14 +260,23 @@ def pn_systems(draw, nmax=401, real_ok=True):
     return {'frame': frame, 'rotf': rotf, 'T': T, 'K': Kd, 'b': b, 'phi': phi, 'gamma': g}
 
 
+# form in which x / the disregistry are handed to the SDVPN object (arguments, keywords, setters, solve): float ndarray,
+# list, nested tuple, read-only ndarray, non-contiguous view, integer-typed ndarray / list of ints.  The integer forms
+# need whole numbers: 'xint' = grid x0 + i*dx of whole angstroms, 'round' = disregistry rounded to whole angstroms (a
+# staircase from 0 to about b, the kind of guess one types by hand).
+_aform = st.sampled_from(['arr', 'arr', 'arr', 'list', 'tuple', 'ro', 'strided', 'int', 'int', 'intlist'])
+
+
 @st.composite
 def pn_profiles(draw, nmin=7, nmax=401):
     n = draw(_npn)
     n = max(nmin, min(nmax, n))
+    fx, fd = draw(_aform), draw(_aform)
+    xint = {'x0': draw(st.integers(-9, 4)), 'dx': draw(st.sampled_from([1, 1, 2]))} if fx in ('int', 'intlist') else None
     return {'N': n, 'kstep': draw(_kstep), 'x0': draw(st.sampled_from([None, None, 0.0, 3.7, -11.25])),
             'w': draw(_w), 'center': draw(gens.nice(-2.0, 2.0, 2)),
             'pert': [[draw(_amp), draw(st.integers(1, 4))], [draw(_amp), draw(st.integers(1, 4))]],
-            'ramp': [draw(_amp), draw(_amp)]}
+            'ramp': [draw(_amp), draw(_amp)], 'fx': fx, 'fd': fd, 'xint': xint, 'round': fd in ('int', 'intlist')}
 
 
 @st.composite
@@ -267,14 +289,18 @@ def pn_settings(draw):
     alpha = draw(st.one_of(st.just(None), st.just(0.0), gens.nice(-0.05, 0.05, 4), _alpha))
     return {'tau': tau, 'alpha': alpha, 'beta': beta, 'cutoff': draw(_cut),
             'fullstress': draw(_bool), 'cdiffelastic': draw(_bool), 'cdiffsurface': draw(_bool),
-            'cdiffstress': draw(_bool), 'stored': draw(_bool), 'via_solve_kw': draw(_bool)}
+            'cdiffstress': draw(_bool), 'stored': draw(_bool), 'via_solve_kw': draw(_bool),
+            # form of the tau / beta arrays handed to the constructor and the setters
+            'tbform': draw(st.sampled_from(['arr', 'arr', 'list', 'tuple', 'ro', 'strided']))}
 
 
 @st.composite
 def pn_cases(draw, nmax=401):
     return {'sys': draw(pn_systems()), 'prof': draw(pn_profiles(nmax=nmax)), 'set': draw(pn_settings()),
             'shiftc': [draw(gens.nice(-10.0, 10.0, 3)), draw(gens.nice(-10.0, 10.0, 3))],
-            's': draw(st.sampled_from([2.0, -1.0, 0.5, 3.0]))}
+            's': draw(st.sampled_from([2.0, -1.0, 0.5, 3.0])),
+            # lists / tuples go to the energy methods as ARGUMENTS in these cases only (everywhere through the setters)
+            'listargs': draw(st.integers(0, 4)) == 0}
 
 
 # ---- object history of an SDVPN: further evaluations on the same object
